@@ -350,7 +350,7 @@ def compare(data, chunks, kind, expected, allowed, faults, sa, obs, base_canon):
             if n in faults and pred['fail_at'].get(n) == faults[n][0] and (
                     sa[n]['err'] is None or faults[n][0] <= sa[n]['err'][0]):
                 continue        # the injected fault froze this one
-            got = S.canon_inspector(obs['insps'][n])
+            got = S.observable_inspector(obs["insps"][n])
             if got != base_canon[n]:
                 bad.append(('4-state-differs-from-fault-free-run', {'inspector': n}))
     if abort is None and obs['closed_ok'] is not True:
@@ -363,7 +363,7 @@ def _fault_free_canon(data, chunks, kind, allowed):
     (finished), keyed by name."""
     from vlib.mc import stream as S
     obs = execute(data, chunks, kind, None, allowed, False, {})
-    return {n: S.canon_inspector(i) for n, i in obs['insps'].items()}, obs
+    return {n: S.observable_inspector(i) for n, i in obs['insps'].items()}, obs
 
 
 def _job(job):
